@@ -36,7 +36,8 @@ PROPS = [
     ("props/C13_union.vo", ["C13_union4_partial", "C13_union4_total", "C13_union4_refuted"], []),
     ("props/C13_layer.vo", ["C13_layered_twin_partial", "C13_layered_twin_full_refuted", "C13_layered_strategy_partial",
                             "C13_layered_strategy_full_refuted", "C13_layered_call_dialect_wins", "C13_layered_sources_are_code",
-                            "C13_merged_sources_are_code"], ["K2", "K3", "K5", "K13"]),
+                            "C13_merged_sources_are_code", "C13_first_hit_is_code", "C13_layered_code_end_to_end",
+                            "C13_merge_strategies_is_code", "C13_layered_code_end_to_end_K"], ["K2", "K3", "K5", "K13", "K113a"]),
 ]
 
 BOOL_OPTS = ("omit_none", "omit_default", "serialize_by_alias", "namedtuple_as_dict")
@@ -190,6 +191,18 @@ def strategy_corr(ctx: vlib.Ctx):
         ctx.correspondence("merge_strategies-model-vs-Dialect.merge", len(cases), len(bad), str([descr[i] for i in bad[:3]]))
         if bad:
             ctx.not_shown("correspondence merge_strategies", f"{len(bad)} maps differ, e.g. {descr[bad[0]]}")
+    # (T) the strategy loops of Dialect.merge as translated on this run (kernel K113a), on the same maps
+    bad, log = vlib.coq_bad_idx("c13_k113a", "DialectMerge DialectLayer DialectLayerK5 DialectMergeK", "From VerifGen Require Import K113a.",
+                                "Open Scope nat_scope.\n", cases, "k113a_case_ok", "smap * smap * smap", shard=500,
+                                needs=["theories/DialectMergeK.vo"])
+    name = "K113a-translated-merge-loops-vs-Dialect.merge"
+    if bad is None:
+        ctx.correspondence(name, len(cases), -1, log)
+        ctx.not_shown("correspondence " + name, log)
+    else:
+        ctx.correspondence(name, len(cases), len(bad), str([descr[i] for i in bad[:3]]))
+        if bad:
+            ctx.not_shown("correspondence " + name, f"{len(bad)} maps differ, e.g. {descr[bad[0]]}")
 
 
 # ---------------------------------------------------------------------------
@@ -1146,12 +1159,15 @@ def run(ctx: vlib.Ctx):
         "DialectCache.step / DialectDeep.call_tree: model of the generated prologue/dispatch of add_(un)pack_method (attribute lookup "
         "through the MRO, own-namespace creation, dict item assignment, nested calls in field order, forwarding of the dialect keyword); "
         "compared with real class families on every run",
-        "DialectMerge.merge_strategies: hand model of the two strategy loops of Dialect.merge; compared with Dialect.merge on every run",
+        "DialectMerge.merge_strategies: model of the two strategy loops of Dialect.merge, proved equal to the loops as translated on "
+        "this run (kernel K113a, C13_merge_strategies_is_code) on the embedding DialectLayerK5.emb_map; model and translated kernel "
+        "are both compared with Dialect.merge on every run",
         "DialectDoc: document model = OptProj.to_dict_model (C08) + codec_strategies/choice (hand model of the first-hit strategy lookup "
         "at the default-dialect level); compared with the mapping every real Encoder hands to its format library on every run",
-        "DialectLayer.first_hit: hand model of the consumer loops get_overridden_(de)serialization_method (first source that provides "
-        "the direction) over the source order proved for the translated generator; compared with the callable real classes apply on "
-        "every run",
+        "DialectLayer.first_hit: proved equal to the translated consumer loops of get_overridden_(de)serialization_method (K5) on the "
+        "embedding DialectLayerK5.emb of strategy values (object = namespace with serialize/deserialize and __use_annotations__ = False, "
+        "dict = mapping from direction to callable, absent = None); the embedding and the hand model merge_strategies are compared "
+        "with the callable real classes apply on every run",
         "DialectTwin.call_effective / union_forward, DialectUnion.union_forward4: hand models of keyword-default forwarding and of the "
         "union branch order (try members in order, a branch fails only on an unknown keyword); compared with real unions on every run",
         "DialectDecode: decode plan = key read (alias or name), deserializer in force (first-hit lookup over codec_strategies), "
